@@ -235,6 +235,13 @@ pub fn c05(ctx: &mut Ctx) -> R {
         c04_plain::<LongRawFuzzyHash>(ctx, &t)?;
         c04_plain::<FuzzyHash>(ctx, &t)?;
         c04_plain::<LongFuzzyHash>(ctx, &t)?;
+        // byte-level mutations (incl. leading/trailing white space): whatever a text entry point accepts must format back
+        let mut tm = t.clone();
+        gen::mutate_text(&mut ctx.rng, &mut tm);
+        c04_plain::<RawFuzzyHash>(ctx, &tm)?;
+        c04_plain::<LongRawFuzzyHash>(ctx, &tm)?;
+        c04_plain::<FuzzyHash>(ctx, &tm)?;
+        c04_plain::<LongFuzzyHash>(ctx, &tm)?;
     }
     Ok(())
 }
